@@ -46,7 +46,10 @@ pub fn fork_map<F: Fn(usize, &Collector)>(
             panic!("fork failed");
         }
         if pid == 0 {
-            // child
+            // child: do not outlive the parent (whole-run watchdog, kill from outside)
+            unsafe {
+                libc::prctl(libc::PR_SET_PDEATHSIG, libc::SIGKILL);
+            }
             limit_address_space();
             let cc = Collector::new(&c.property, &c.tier);
             let mut part = k;
